@@ -249,6 +249,7 @@ def drive(case, script, instrument=False):
     resp = {(row[0], row[1]): row[2] for row in case.get("stageResp", [])}
     status_codes = set(case.get("statusCodes", []))
     trace, origins = [], []
+    yielded = set()
     pending = None  # last yielded Msg
     for step, cmd in enumerate(script):
         world.step = step
@@ -272,7 +273,12 @@ def drive(case, script, instrument=False):
             else:
                 raise ValueError(cmd)
             trace.append(canon_msg(m, world))
-            origins.append("plan" if id(m) in world.plan_ids else "wrapper")
+            if id(m) in world.plan_ids:
+                # a message OBJECT the plan yields again is passed through by plan_mutator unprocessed
+                origins.append("plan-again" if id(m) in yielded else "plan")
+                yielded.add(id(m))
+            else:
+                origins.append("wrapper")
             pending = m
         except StopIteration as e:
             trace.append(["ret", e.value])
@@ -293,6 +299,10 @@ def drive(case, script, instrument=False):
 
 def with_origins(trace, origins):
     return [o + [("w" if origins[i] == "wrapper" else "p")] if o[0] == "yld" else o for i, o in enumerate(trace)]
+
+
+def _is_plan(x):
+    return x in ("plan", "plan-again")
 
 
 def canon_trace(trace, names=None):
@@ -445,7 +455,7 @@ def oracle(case, script, trace, origins, log):
         script, trace, origins = script[k:], trace[k:], origins[k:]
         log = [e[:3] + [e[3] - k] for e in log] if log else log
     own = [i for i, o in enumerate(trace) if o[0] == "yld" and origins[i] == "wrapper"]
-    plan_idx = [i for i, o in enumerate(trace) if o[0] == "yld" and origins[i] == "plan"]
+    plan_idx = [i for i, o in enumerate(trace) if o[0] == "yld" and _is_plan(origins[i])]
     death = _death(script, trace)
     finished = death is not None
 
@@ -558,9 +568,9 @@ def oracle(case, script, trace, origins, log):
                     staged += [r] if nxt[1] is None else resp.get((r, nxt[1]), [])
                     if i + 1 < len(trace) and trace[i + 1][0] == "yld":
                         t = trace[i + 1]
-                        if not (origins[i + 1] == "plan" and t[1] in LAZY_COMMANDS and t[2] is not None and root(t[2]) == r):
+                        if not (_is_plan(origins[i + 1]) and t[1] in LAZY_COMMANDS and t[2] is not None and root(t[2]) == r):
                             bad.append(("lazily_stage_wrapper:stage-not-followed-by-its-message", f"stage dev{r} followed by {t}"))
-            elif origins[i] == "plan" and o[1] in LAZY_COMMANDS and o[2] is not None:
+            elif origins[i] == "plan" and o[1] in LAZY_COMMANDS and o[2] is not None:  # (first time this object is yielded)
                 if root(o[2]) not in staged_roots:
                     bad.append(("lazily_stage_wrapper:device-used-before-its-root-was-staged", f"{o} at step {i}, staged roots {staged_roots}"))
             elif origins[i] == "wrapper" and o[1] not in ("stage", "unstage", "wait"):
@@ -580,6 +590,8 @@ def oracle(case, script, trace, origins, log):
             before = [["complete", d] for d in devs] + ([["wait", None]] if devs else []) + [["collect", d] for d in devs]
         for i in plan_idx:
             o = trace[i]
+            if origins[i] == "plan-again":
+                continue  # plan_mutator does not process a message object twice (msgs_seen is keyed by id)
             if o[1] == "close_run":
                 lo = i - len(before)
                 got = [[t[1], t[2]] for t in trace[max(0, lo) : i]]
@@ -710,9 +722,12 @@ def _cases(ctx):
             if w == "stage_wrapper":
                 c["statusCodes"] = []
             c["plan"] = ast
-            c["scripts"] = scripts if G.size(ast) <= 2 or w in ("run_wrapper", "lazily_stage_wrapper") else rng.sample(scripts, 60)
+            if G.size(ast) <= 2:
+                c["scripts"] = scripts
+            else:
+                c["scripts"] = rng.sample(scripts, 200 if w in ("run_wrapper", "lazily_stage_wrapper") else 60)
             out.append(("exhaustive", c))
-    for _ in range(ctx.budget(900, 12000)):
+    for _ in range(ctx.budget(700, 12000)):
         w = rng.choice(WRAPPERS + ["lazily_stage_wrapper", "run_wrapper"])
         c = _config(rng, w)
         ast = _plan_for(rng, w, rng.randrange(1, 9))
